@@ -20,7 +20,7 @@ CLAUSE_PROPS = {"ctx-attrs": "C03", "ctx-function": "C03", "rowcount": "C04", "s
 NAMES = ["V", "V1", "V10", "VAR", "VAR_1", "MYVAR"]
 
 SPEC = {
-    "runs": {"quick": 500, "thorough": 50000},
+    "runs": {"quick": 500, "thorough": 15000},
     "wall": {"quick": 600, "thorough": 7200},
     "chunk": 10,
     "level": "exploration",
